@@ -102,6 +102,46 @@ class RegexStub:
         return ['']
 
 
+import time as _time
+import types as _types
+
+
+class Clock:
+    """nondeterministic clock: successive readings are arbitrary non-decreasing instants (symbolic increments)"""
+
+    def __init__(self, steps):
+        self.steps = list(steps)
+        self.now = 1000.0
+
+    def __call__(self):
+        if self.steps:
+            self.now = self.now + self.steps.pop(0)
+        return self.now
+
+
+def _install(stub, clock):
+    """replace every regular-expression engine reachable from smartquery.functions (module objects that look like
+    re / regex, and precompiled pattern objects held at module level) by the recording stub, and the clock functions
+    of `time` by the nondeterministic clock"""
+    saved = []
+    for name, val in list(vars(functions).items()):
+        if isinstance(val, _types.ModuleType) and all(hasattr(val, a) for a in ('compile', 'search', 'findall')):
+            saved.append((functions, name, val))
+            setattr(functions, name, stub)
+        elif type(val).__name__ == 'Pattern':
+            saved.append((functions, name, val))
+            setattr(functions, name, stub.compile(''))
+    for fn in ('time', 'perf_counter', 'monotonic', 'process_time'):
+        saved.append((_time, fn, getattr(_time, fn)))
+        setattr(_time, fn, clock)
+    return saved
+
+
+def _restore(saved):
+    for obj, name, val in reversed(saved):
+        setattr(obj, name, val)
+
+
 def timeout_constant(x: int) -> None:
     """
     pre: True
@@ -113,20 +153,20 @@ def timeout_constant(x: int) -> None:
     hlib.done()
 
 
-def engine_calls(fi: bool, fm: bool, fs: bool, upper: bool, other: bool, no_flags: bool, omit: bool, hits: int) -> None:
+def engine_calls(fi: bool, fm: bool, fs: bool, upper: bool, other: bool, no_flags: bool, omit: bool, hits: int,
+                 dt1: float, dt2: float, dt3: float, word_pattern: bool) -> None:
     """
-    pre: 0 <= hits <= 4
+    pre: 0 <= hits <= 4 and 0.0 <= dt1 <= 10.0 and 0.0 <= dt2 <= 10.0 and 0.0 <= dt3 <= 10.0
     post: True
     """
     hlib.enter(locals())
     name = hlib.PARAM["fn"]
-    s, pattern = 'abcdefgh', 'a(b)?'
+    s, pattern = 'abcdefgh', ('transaction_rolled_back plain words' if word_pattern else 'a(b)?')
     flags = ('i' if fi else '') + ('m' if fm else '') + ('s' if fs else '') + ('x' if other else '')
     if upper:
         flags = flags.upper()
     stub = RegexStub(hits)
-    saved = functions.regex
-    functions.regex = stub
+    saved = _install(stub, Clock([dt1, dt2, dt3]))
     try:
         f = FUNCTIONS[name]
         if omit:
@@ -134,10 +174,10 @@ def engine_calls(fi: bool, fm: bool, fs: bool, upper: bool, other: bool, no_flag
         else:
             r = f(s, pattern, None if no_flags else flags)
     finally:
-        functions.regex = saved
+        _restore(saved)
     for (what, has, val) in stub.log:
-        assert has and val is not None, "%s reaches the regex engine (%s) without a timeout" % (name, what)
-        assert 0 < val <= 0.1, "%s passes a timeout that is not small (%s)" % (name, what)
+        assert has and val is not None, "%s reaches a regular-expression engine (%s) without a timeout" % (name, what)
+        assert 0 < val <= 0.1, "%s passes a timeout that is not a small positive number (%s)" % (name, what)
     assert len(stub.log) <= 2, "%s enters the regex engine an unbounded number of times (each with a fresh timeout)" % name
     if name == 'match':
         assert r is None or isinstance(r, str)
